@@ -18,8 +18,14 @@ class BlockExc(Exception):
     label = "block"
 
 
+class NewBase(BaseException):
+    def __init__(self, label):
+        BaseException.__init__(self, label)
+        self.label = label
+
+
 KINDS = ("acm", "scm", "push-async-fn", "push-sync-fn", "callback-sync", "callback-async", "push-acm", "push-scm")
-BEHS = ("falsy", "truthy", "raise-new", "raise-new-if-exception")
+BEHS = ("falsy", "truthy", "raise-new", "raise-new-if-exception", "raise-new-BaseException")
 NK, NB = len(KINDS), len(BEHS)
 
 
@@ -44,6 +50,8 @@ class Entry:
             return True
         if b == 2:
             raise New("new-%d" % self.eid)
+        if b == 4:
+            raise NewBase("newbase-%d" % self.eid)
         if ev is not None:
             raise New("new-%d" % self.eid)
         return 0
@@ -55,6 +63,8 @@ class Entry:
         b = self.beh
         if b == 1:
             return True  # must not suppress
+        if b == 4:
+            raise NewBase("newbase-%d" % self.eid)
         if b >= 2:
             raise New("new-%d" % self.eid)
         return None
@@ -423,7 +433,7 @@ def jobs(tier):
 
 LEVEL = "other"
 BOUNDS = {
-    "quick": "stacks of 0..2 entries, each {entered async CM, entered sync CM, pushed async fn, pushed sync fn, sync callback with args, async callback with args, pushed (not entered) async CM, pushed sync CM} x {falsy, truthy, raise new, raise new only when an exception is in flight}, block normal/raising, one entry whose enter fails; oracles: contextlib.AsyncExitStack and recursively built nested async-with; histories of 4 operations over {register, aclose, pop_all, with-block, with-block raising, aclose popped stack} followed by closing everything",
+    "quick": "stacks of 0..2 entries, each {entered async CM, entered sync CM, pushed async fn, pushed sync fn, sync callback with args, async callback with args, pushed (not entered) async CM, pushed sync CM} x {falsy, truthy, raise new, raise new only when an exception is in flight, raise a new BaseException}, block normal/raising, one entry whose enter fails; oracles: contextlib.AsyncExitStack and recursively built nested async-with; histories of 4 operations over {register, aclose, pop_all, with-block, with-block raising, aclose popped stack} followed by closing everything",
     "thorough": "stacks of 3 entries, histories of 6 operations",
 }
 OUTSIDE = ["__context__/__cause__ chains", "4 entries", "exits that suspend (covered by C17/C18)"]
